@@ -590,13 +590,22 @@ def one_view_history(run, be, i, replaying=False):
         ints, j = dyadic_state(crng, n)
     nshots = crng.randint(4 if freq_first else 1, 10)
     be.set_seed(crng.randrange(2 ** 31))
-    hr.execute(ints, j, nshots)
-    if freq_first:
-        hr.accessor("freqs", 0, crng.random() < 0.5, True)
-        hr.accessor("freqs", 0, crng.random() < 0.5, False)
-    nops = crng.randint(2, 8)
-    for _ in range(nops):
-        random_accessor(crng, hr, 0, n)
+    import qibo
+    default_batch = qibo.get_batch_size()
+    try:
+        if freq_first and i % 8 == 1:
+            # frequencies are drawn in batches: shot counts at / next to a multiple of the batch size
+            qibo.set_batch_size(crng.choice([nshots, max(1, nshots // 2), nshots + 1, max(1, nshots - 1)]))
+            hr.log.append({"op": "set_batch_size", "batch_size": qibo.get_batch_size()})
+        hr.execute(ints, j, nshots)
+        if freq_first:
+            hr.accessor("freqs", 0, crng.random() < 0.5, True)
+            hr.accessor("freqs", 0, crng.random() < 0.5, False)
+        nops = crng.randint(2, 8)
+        for _ in range(nops):
+            random_accessor(crng, hr, 0, n)
+    finally:
+        qibo.set_batch_size(default_batch)
     return hr
 
 
@@ -1293,6 +1302,234 @@ def part_bitflip(run, rng, be, count, tag="bitflip", executions=1, only=None):
     if ok and not any(f.key.startswith(tag + ":") for f in run.findings):
         run.oblige(f"test:{tag}_views_consistent", True, "test")
 
+
+# ------------------------------------------------------------------ part I: gates conditioned on several collapsed outcomes
+def conditioned_case(run, be, i):
+    """>= 2 collapsing measurements in one circuit, X-prepared basis state so that their outcomes
+    are determined (and differ), gates RX(q, theta = pi * integer combination of symbols of the
+    different measurements), final measurement of all qubits; state vector and density matrix.
+    Per shot: recorded outcomes, the multiple of pi every conditioned gate received and the final
+    samples are compared with the model (each symbol = the bit recorded by ITS measurement)."""
+    from qibo import Circuit, gates
+    crng = random.Random(f"{run.seed}:conditioned:{i}")
+    n = crng.randint(3, 5)
+    dm = bool(i % 2)
+    nm = crng.randint(2, 3)
+    perm = crng.sample(range(n), n)
+    sizes = [1] * nm
+    for _ in range(crng.randint(0, max(0, n - nm - 1))):
+        sizes[crng.randrange(nm)] += 1
+    groups, pos = [], 0
+    for s in sizes:
+        groups.append(perm[pos:pos + s])
+        pos += s
+    # the first bits of the first two measurements differ with certainty
+    ones = {groups[0][0]} | {q for q in range(n) if q not in (groups[0][0], groups[1][0]) and crng.random() < 0.5}
+    c = Circuit(n, density_matrix=dm)
+    xops, script = [], []
+    for q in sorted(ones):
+        c.add(gates.X(q))
+        xops.append(f"XG (@nil nat, [{q}]%nat, {GATE_ZI['X']})")
+        script.append(f"X({q})")
+    handles, cond = [], []
+
+    def add_conditioned(avail):
+        q = crng.randrange(n)
+        terms = []
+        for mi in crng.sample(avail, crng.randint(1, min(2, len(avail)))):
+            terms.append((crng.choice([1, 1, 2, 3]), mi, crng.randrange(len(groups[mi]))))
+        expr = sum(cf * handles[mi].symbols[b] for cf, mi, b in terms)
+        g = gates.RX(q, theta=np.pi * expr)
+        seen = []
+        orig = g.substitute_symbols
+
+        def wrapped(_g=g, _o=orig, _s=seen):
+            _o()
+            _s.append(float(_g.parameters[0]))
+        g.substitute_symbols = wrapped
+        c.add(g)
+        cond.append(seen)
+        xops.append(f"XC {q}%nat [" + "; ".join(f"({cf}, {mi}, {b})%nat" for cf, mi, b in terms) + "]")
+        script.append(f"RX({q}, theta=pi*(" + " + ".join(f"{cf}*r{mi}.symbols[{b}]" for cf, mi, b in terms) + "))")
+
+    for k_, g_ in enumerate(groups):
+        handles.append(c.add(gates.M(*g_, collapse=True)))
+        xops.append(f"XM {nat_list(g_)} None true")
+        script.append(f"r{k_} = M({','.join(map(str, g_))}, collapse=True)")
+        if k_ >= 1 and crng.random() < 0.3:
+            add_conditioned(list(range(k_ + 1)))
+    # one gate per measurement on its bit 0 (same bit index in different gates), plus random ones
+    order = list(range(nm))
+    crng.shuffle(order)
+    for mi in order:
+        q = crng.randrange(n)
+        g = gates.RX(q, theta=np.pi * handles[mi].symbols[0])
+        seen = []
+        orig = g.substitute_symbols
+
+        def wrapped(_g=g, _o=orig, _s=seen):
+            _o()
+            _s.append(float(_g.parameters[0]))
+        g.substitute_symbols = wrapped
+        c.add(g)
+        cond.append(seen)
+        xops.append(f"XC {q}%nat [(1, {mi}, 0)%nat]")
+        script.append(f"RX({q}, theta=pi*r{mi}.symbols[0])")
+    for _ in range(crng.randint(0, 2)):
+        add_conditioned(list(range(nm)))
+    c.add(gates.M(*range(n)))
+    xops.append(f"XM {nat_list(range(n))} None false")
+    script.append(f"M({','.join(map(str, range(n)))})")
+    nshots = crng.randint(1, 3)
+    info = {"part": "conditioned", "case": i, "n": n, "density_matrix": dm, "nshots": nshots, "script": script}
+    # NOTE: cond is in creation order of the conditioned gates = queue order of the XC items
+    draws = []
+    orig_s = be.sample_shots
+
+    def shots(probabilities, ns):
+        out = orig_s(probabilities, ns)
+        draws.append([int(v) for v in np.asarray(out).tolist()])
+        return out
+    be.sample_shots = shots
+    try:
+        be.set_seed(crng.randrange(2 ** 31))
+        r = c(nshots=nshots)
+        final = np.asarray(r.samples(binary=True)).tolist()
+    finally:
+        del be.sample_shots
+    per = nm + 1
+    if len(draws) != per * nshots:
+        info["draws"] = draws
+        return info, [], "unexpected number of sampling calls"
+    xs = "[" + "; ".join(xops) + "]"
+    psi0 = "[" + "; ".join(["zi1"] + ["zi0"] * (2 ** n - 1)) + "]"
+    items = []
+    info["per_shot"] = []
+    for s in range(nshots):
+        sd = [d[0] for d in draws[s * per:(s + 1) * per]]
+        rec = [(k_, [int(b) for b in np.asarray(handles[k_]._samples[s]).tolist()]) for k_ in range(nm)]
+        ks = []
+        for seen in cond:
+            th = seen[s] if s < len(seen) else float("nan")
+            kk = int(round(th / np.pi)) if th == th else -1
+            if not (abs(th - kk * np.pi) < 1e-9 and kk >= 0):
+                kk = 999
+            ks.append(kk)
+        info["per_shot"].append({"draws": sd, "recorded": rec, "multiples_of_pi_seen_by_conditioned_gates": ks, "final_samples": final[s]})
+        rec_lit = "[" + "; ".join(f"({k_}%nat, {bits_lit(b)})" for k_, b in rec) + "]"
+        items.append((f"shot{s}", f"shot_check_cond {n}%nat {xs} {psi0} {nat_list(sd)} {rec_lit} {nat_list(ks)} [{bits_lit(final[s])}]"))
+    return info, items, None
+
+
+def part_conditioned(run, rng, be, count, only=None):
+    exprs, meta = [], []
+    ok = True
+    for i in (range(count) if only is None else only):
+        try:
+            info, items, problem = conditioned_case(run, be, i)
+        except Exception as e:  # noqa
+            info, items, problem = {"part": "conditioned", "case": i}, [], "raised: " + repr(e)[:300]
+        run.case({"conditioned": info.get("script"), "dm": info.get("density_matrix"), "nshots": info.get("nshots")}, True)
+        if i < 2:
+            run.sample({k: v for k, v in info.items() if k != "per_shot"})
+        if problem:
+            ok = False
+            run.find("conditioned:execution", "building or executing a circuit with gates conditioned on collapsed outcomes failed: " + problem, info)
+        for label, term in items:
+            exprs.append(term)
+            meta.append((label, info))
+    vals = eval_cases(run, "conditioned", exprs, chunk=60)
+    if vals is None:
+        run.oblige("correspondence:conditioned_gates", False, "correspondence")
+        run.find("conditioned:coq-failed", "generated file did not compile", {}, concrete=False)
+        return
+    for (label, info), v in zip(meta, vals):
+        bs = [x == "true" for x in re.findall(r"true|false", v)]
+        if len(bs) != 5 or not all(bs):
+            ok = False
+            names = ["model ran", "recorded outcomes", "angles of the conditioned gates", "final samples", "sampler contract"]
+            bad = [nm_ for nm_, b in zip(names, bs) if not b] if len(bs) == 5 else ["unparsable"]
+            if "angles of the conditioned gates" in bad or "final samples" in bad:
+                run.find("conditioned:gate_sees_other_outcome",
+                         "a gate whose angle depends on result.symbols of a collapsing measurement was not evaluated with the outcome recorded by THAT "
+                         "measurement in this shot (disagreeing: " + ", ".join(bad) + ")", dict(info, shot=label))
+            else:
+                run.find("conditioned:model", "per-shot model disagrees with the implementation: " + ", ".join(bad), dict(info, shot=label), concrete=False)
+    run.oblige("correspondence:conditioned_gates", ok, "correspondence")
+
+
+# ------------------------------------------------------------------ part J: frequencies sampled in batches
+def part_batches(run, rng, be, count, only=None):
+    """frequencies() before samples() draws the shots in batches of qibo.get_batch_size(); with a small
+    batch size, shot counts at and around the multiples of the batch size, state vector and density
+    matrix.  Coq oracle: total = nshots, support, per-register totals, consistency with the samples
+    rebuilt from the frequencies."""
+    import qibo
+    from qibo import Circuit, gates
+    items, meta = [], []
+    default = qibo.get_batch_size()
+    try:
+        for i in (range(count) if only is None else only):
+            crng = random.Random(f"{run.seed}:batches:{i}")
+            n = crng.randint(1, 3)
+            regs = random_registers(crng, n)
+            dm = bool(i % 2)
+            batch = crng.choice([1, 2, 3, 5, 8])
+            nshots = crng.choice([batch, 2 * batch, 3 * batch, batch + 1, max(1, batch - 1), 2 * batch + 1])
+            ints, j = dyadic_state(crng, n)
+            psi = np.array(ints, dtype=complex) / 2 ** j
+            c = Circuit(n, density_matrix=dm)
+            for reg in regs:
+                c.add(gates.M(*reg))
+            qibo.set_batch_size(batch)
+            be.set_seed(crng.randrange(2 ** 31))
+            r = c(initial_state=(np.outer(psi, psi.conj()) if dm else psi), nshots=nshots)
+            F = r.frequencies(binary=False)
+            w = [int(abs(a) ** 2) for a in ints]
+            try:
+                FR = r.frequencies(binary=False, registers=True)
+                S = [int(x) for x in np.asarray(r.samples(binary=False)).tolist()]
+            except Exception as e:  # noqa
+                bad = {"part": "batches", "case": i, "n": n, "registers": regs, "density_matrix": dm, "batch_size": batch, "nshots": nshots,
+                       "state_times_2^j": [str(a) for a in ints], "j": j, "frequencies": dict(sorted(F.items())), "total": sum(F.values()),
+                       "raised": repr(e)[:200]}
+                run.case({"batches": bad}, nshots % batch == 0)
+                run.find("batches:total" if sum(F.values()) != nshots else "batches:raised",
+                         f"frequencies() sampled before samples() sum to {sum(F.values())} instead of nshots={nshots}; the following accessor raised " + repr(e)[:120], bad)
+                continue
+            info = {"part": "batches", "case": i, "n": n, "registers": regs, "density_matrix": dm, "batch_size": batch, "nshots": nshots,
+                    "state_times_2^j": [str(a) for a in ints], "j": j, "frequencies": dict(sorted(F.items())), "total": sum(F.values()),
+                    "register_totals": [sum(FR[m_.register_name].values()) for m_ in c.measurements], "nsamples": len(S)}
+            run.case({"batches": info}, nshots % batch == 0)
+            if i == 0:
+                run.sample(info)
+            cfg = f"(mkcfg {n}%nat {nat_list_list(regs)})"
+            Q = [q for reg in regs for q in reg]
+            items.append((f"b{i}:total", f"(total {counter_lit(F)} =? {nshots})%nat && nodupb (keys {counter_lit(F)}) && "
+                          f"forallb (in_support {len(Q)}%nat (born_vec {n}%nat {nat_list(Q)} {z_list(w)})) (keys {counter_lit(F)})"))
+            items.append((f"b{i}:registers", f"explainsb {cfg} (@nil Z) (expand {counter_lit(F)}) (Freqs 0%nat false true (@nil (nat * nat))) "
+                          f"({out_term('freqs', False, True, FR, c.measurements)}) && "
+                          f"forallb (fun f => (total f =? {nshots})%nat) [{'; '.join(counter_lit(FR[m_.register_name]) for m_ in c.measurements)}]"))
+            items.append((f"b{i}:samples", f"(length {nat_list(S)} =? {nshots})%nat && counts_okb {counter_lit(F)} {nat_list(S)}"))
+            for lab in ("total", "registers", "samples"):
+                meta.append((f"b{i}:{lab}", lab, info))
+    finally:
+        qibo.set_batch_size(default)
+    res, _ = run.coq_bools("batches.v", HEADER, items, timeout=900)
+    if res is None:
+        run.find("batches:coq-failed", "generated file did not compile", {}, concrete=False)
+        return
+    ok = True
+    for label, lab, info in meta:
+        if not res[label]:
+            ok = False
+            what = {"total": "frequencies() sampled before samples() do not sum to nshots (or contain an outcome of zero probability)",
+                    "registers": "per-register frequencies are not the projection of the global ones / do not sum to nshots",
+                    "samples": "samples() rebuilt from the frequencies have the wrong count or other counts"}[lab]
+            run.find(f"batches:{lab}", what, info)
+    if ok and not any(f.key.startswith("batches:") for f in run.findings):
+        run.oblige("test:frequencies_sum_to_nshots_for_all_batch_boundaries", True, "test")
+
 # ------------------------------------------------------------------ main
 RULE = ("probabilities: random n<=5, random duplicate-free ordered qubit lists (biased to unsorted), Gaussian-integer states with exact moduli / "
         "integer density matrices, through the backend function and through Circuit execution; non-trivial = list differs from range(n) and "
@@ -1307,13 +1544,17 @@ RULE = ("probabilities: random n<=5, random duplicate-free ordered qubit lists (
         "further gates; collapse flags / names / circuit.measurements / has_collapse compared structurally with the model of Circuit.add, and "
         "every shot's recorded and final register outcomes compared with the exact per-shot model.  bitflip: measurement registers with "
         "bit-flip maps (2/3 deterministic p in {0,1} per qubit: noisy samples = noiseless draws with exactly those bits flipped, exact; 1/3 "
-        "fractional p: consistency only), all eight views in random order judged by the Coq oracle against the result's own samples.")
+        "fractional p: consistency only), all eight views in random order judged by the Coq oracle against the result's own samples.  "
+        "conditioned: 2-3 collapsing measurements (1-2 qubits each, outcomes determined by X preparation and differing between the first two), "
+        "RX gates whose angle is pi times an integer combination of symbols of different measurements (same bit index in different gates), "
+        "state vector and density matrix, per shot recorded outcomes / angles received / final samples against the model.  batches: "
+        "qibo.set_batch_size(1,2,3,5,8) with nshots at and around multiples of the batch size, frequencies() before samples().")
 
 
 def budgets(tier):
     if tier == "thorough":
-        return {"probs": 480, "conv": 200, "views": 900, "collapse": 300, "direct": 240, "symbols": 60, "repeated": 120, "bookkeeping": 600, "bitflip": 300}
-    return {"probs": 150, "conv": 60, "views": 160, "collapse": 70, "direct": 60, "symbols": 20, "repeated": 30, "bookkeeping": 120, "bitflip": 60}
+        return {"probs": 480, "conv": 200, "views": 900, "collapse": 300, "direct": 240, "symbols": 60, "repeated": 120, "bookkeeping": 600, "bitflip": 300, "conditioned": 300, "batches": 240}
+    return {"probs": 150, "conv": 60, "views": 160, "collapse": 70, "direct": 60, "symbols": 20, "repeated": 30, "bookkeeping": 120, "bitflip": 60, "conditioned": 60, "batches": 60}
 
 
 def static_obligations(run, theory):
@@ -1366,6 +1607,8 @@ def main(run):
     part_repeated(run, rng, be, b["repeated"])
     part_bookkeeping(run, rng, be, b["bookkeeping"])
     part_bitflip(run, rng, be, b["bitflip"])
+    part_conditioned(run, rng, be, b["conditioned"])
+    part_batches(run, rng, be, b["batches"])
     return run.finish(rule=RULE)
 
 
@@ -1385,6 +1628,10 @@ def replay(run, data):
         part_collapse_single(run, be, cases)
     elif part == "symbols":
         part_symbols_range(run, be, [i])
+    elif part == "conditioned":
+        part_conditioned(run, None, be, 0, only=[i])
+    elif part == "batches":
+        part_batches(run, None, be, 0, only=[i])
     elif part == "bitflip":
         part_bitflip(run, None, be, 0, only=[i])
     elif part == "bookkeeping":
